@@ -266,9 +266,14 @@ def eval_py(P, mode, gcases, text_route=False, decoy=True, aborts=None):
         build_exc = None
         if built is None:
             try:
+                if gi % 7 == 5:
+                    # built under the documented setting "0 = no limit on the cache size" (README)
+                    P.ParseCache.max_cache_size = 0
                 built = G.build(P, gr)
             except Exception as e:  # noqa - the library refused/crashed while constructing a valid grammar
                 build_exc = "exc:" + type(e).__name__ + "-while-building-grammar"
+            finally:
+                P.ParseCache.max_cache_size = None
         cls, rules = built if built is not None else (None, [None])
         decoy_rule = None
         if decoy and build_exc is None:
